@@ -12,6 +12,7 @@ import (
 	"verif/harness/filterchk"
 	"verif/harness/histchk"
 	"verif/harness/httpchk"
+	"verif/harness/matchchk"
 	"verif/harness/optchk"
 	"verif/harness/phchk"
 	"verif/harness/readchk"
@@ -28,6 +29,7 @@ var checks = map[string]func(prop, tier string) int{
 	"C06": readchk.Main,
 	"C10": fieldchk.Main,
 	"C12": phchk.Main,
+	"C13": matchchk.MainC13,
 	"C16": httpchk.Main,
 	"C17": optchk.Main,
 	"C18": histchk.Main,
